@@ -248,12 +248,21 @@ class World:
         (ref,), newtab = ref_eval(self.srcdir(info["ver"]), [{"entry": entry}], table=m["table"],
                                   mutations=info["mutations"],
                                   modules=[ir.modname(prog, mm) for mm in prog["mods"]])
-        cmd = {"cmd": "eval", "entry": entry, "style": style, "options": op.get("opts", {})}
+        opts = dict(op.get("opts", {}))
+        gfile = None
+        if opts.get("dds_export_graph"):
+            gfile = os.path.join(self.root, f"graph_{i}.{opts['dds_export_graph']}")
+            opts["dds_export_graph"] = gfile
+        cmd = {"cmd": "eval", "entry": entry, "style": style, "options": opts}
         if op.get("fail"):
             cmd["fail"] = op["fail"]
         snap_before = self.store_snapshot(info) if op.get("snap") else None
         out = info["proc"].call(cmd)
         snap_after = self.store_snapshot(info) if op.get("snap") else None
+        dot = None
+        if gfile is not None and os.path.exists(gfile):
+            with open(gfile, "rb") as gf:
+                dot = gf.read().decode("utf-8", "replace")
         stages = (op.get("opts") or {}).get("dds_stages")
         full = stages is None
         rec = {"i": i, "op": "eval", "entry": fn, "style": style, "ver": info["ver"], "store": sid, "ref": ref["res"],
@@ -264,7 +273,7 @@ class World:
                "nstore_calls": sum(1 for c in out["calls"] if c[0] == "store_blob"),
                "nsync_calls": sum(1 for c in out["calls"] if c[0] == "sync_paths"),
                "kept_fns": sorted(self.cones(info, fn).kept_functions()),
-               "fps": self._path_fps(info, fn)}
+               "fps": self._path_fps(info, fn), "dot": dot}
         self.obs.append(rec)
         self.log.append([i, "eval", fn, style, info["ver"], sid, out["res"][:2], out["log"], rec["sigs"]])
         if op.get("fail") or not full:
